@@ -92,11 +92,13 @@ impl Check for C09 {
 
     fn budget(&self, tier: &str) -> u64 { if tier == "thorough" { 60_000 } else { 5_000 } }
 
-    fn generate(&self, seed: u64, _tier: &str, env: &Env) -> Trace {
+    fn generate(&self, seed: u64, tier: &str, env: &Env) -> Trace {
         let mut r = Rng::new(seed);
+        // thorough tier: half of the runs are three times as long (deeper histories)
+        let dm: u64 = if tier == "thorough" && seed % 2 == 0 { 3 } else { 1 };
         let g = SemGen::new(&env.data);
         let mut t = base_instant(&mut r, &env.host_rule);
-        let n = 6 + r.below(16);
+        let n = (6 + r.below(16)) * dm;
         let move_rate = *r.pick(&[0u64, 2, 5]);
         let lang = if r.chance(1, 4) { "tr" } else { "en" };
         let mut events = Vec::new();
